@@ -71,7 +71,8 @@ func vStartObsServer(max uint32) *vObsServer {
 	return o
 }
 
-// A request whose header block (every HPACK representation, 38 bytes) is cut
+// A request whose header block (every HPACK representation, 38 bytes,
+// optionally after a dynamic table size update) is cut
 // at any byte into HEADERS + CONTINUATION (quick) or at any two bytes into
 // HEADERS + CONTINUATION + CONTINUATION (thorough), with the body in one or
 // two DATA frames, optionally padded: the handler runs once and sees exactly
@@ -80,6 +81,11 @@ func vStartObsServer(max uint32) *vObsServer {
 //verif:harness prop=C01 unwind=200 timeout=600
 func VerifH_C01_split() {
 	blk := vRichBlock('1')
+	if vBool() {
+		// the block starts with a dynamic table size update (to 4096), as a
+		// peer's first block after a SETTINGS_HEADER_TABLE_SIZE change does
+		blk = append([]byte{0x3f, 0xe1, 0x1f}, blk...)
+	}
 	want := vSeen{method: "POST", path: "/1", host: "h.x", ua: "ua", body: "abc", fields: []string{"x-a: v1", "x-b: v2", "content-length: 3"}}
 	s := vStartObsServer(8)
 	cut1 := vRange(0, len(blk))
